@@ -151,7 +151,13 @@ Built build(int base_kind, const std::vector<int>& choice, bool v2, int n)
         }
     }
     // a path without an extension cannot be typed by 2.x; a snapshot without a path cannot be written at all
-    if (b.snap.relative_path && b.snap.relative_path->find('.') == std::string::npos) b.must_succeed = false;
+    // (the extension is that of the file name, not of a directory on the way: "rips.2019/side_a" has none)
+    if (b.snap.relative_path)
+    {
+        auto slash = b.snap.relative_path->find_last_of('/');
+        std::string file = slash == std::string::npos ? *b.snap.relative_path : b.snap.relative_path->substr(slash + 1);
+        if (file.find('.') == std::string::npos) b.must_succeed = false;
+    }
     return b;
 }
 
